@@ -216,6 +216,14 @@ def fragment_patterns(rng):
     P.append(("interface-recursion", [f("i", [["spread", "IF"]])], [{"name": "IF", "on": "I", "sel": [["typename"], f("id"), f("i", [["spread", "IF"]])]}]))
     P.append(("two-recursive-spreads", [f("t", [["spread", "F"], ["spread", "G"]])], [{"name": "F", "on": "TT", "sel": [f("id"), f("t", [["spread", "F"]])]}, {"name": "G", "on": "TT", "sel": [f("name"), f("ts", [["spread", "G"]])]}]))
     P.append(("self-spread-under-same-field-twice", [f("t", [["spread", "F"]])], [{"name": "F", "on": "TT", "sel": [f("id"), f("t", [["spread", "F"]]), f("t", [["spread", "F"]], alias="again")]}]))
+    # the same schema field selected twice under two aliases, the recursion only below the SECOND selection (and below the first):
+    # what is remembered about a schema field must not stand in for a selection of it
+    P.append(("recursion below the second of two selections of one field", [f("t", [["spread", "F"]])],
+              [{"name": "F", "on": "TT", "sel": [f("id"), f("t", [f("name")], alias="first"), f("t", [["spread", "F"]], alias="second")]}]))
+    P.append(("recursion below the first of two selections of one field", [f("t", [["spread", "F"]])],
+              [{"name": "F", "on": "TT", "sel": [f("id"), f("t", [["spread", "F"]], alias="first"), f("t", [f("name")], alias="second")]}]))
+    P.append(("two fragments spreading each other through the same field name", [f("t", [["spread", "Ping"]])],
+              [{"name": "Ping", "on": "TT", "sel": [f("id"), f("t", [["spread", "Pong"]])]}, {"name": "Pong", "on": "TT", "sel": [f("name"), f("t", [["spread", "Ping"]])]}]))
     for order in (("Plain", "Tree"), ("Tree", "Plain")):
         P.append(("two spreads on one union variant (%s first), one recursive through the field" % order[0], [f("t", [["spread", "Tree"]])],
                   [{"name": "Tree", "on": "TT", "sel": [f("id"), f("u", [["typename"], ["spread", order[0]], ["spread", order[1]], ["inline", "OO", [f("k")]]])]},
@@ -320,6 +328,30 @@ def wide_and_long_cases(rng):
         c["vectors"] = [{"id": "a0", "kind": "vars", "target": "Q", "input": val, "expect": {"variables": val}}]
         c["pattern"] = "two-type input cycle closed after %d sibling input members" % n
         c["features"] = ["wide-input-cycle"]
+        out.append(c)
+    # one input type holding SEVERAL members of one recursive type: a list member (needs no indirection) declared before / after a
+    # plain one (needs it), directly and through a two-type cycle: each member is decided on its own
+    for mi, decl in enumerate(([("label", NN(T("String"))), ("children", L(NN(T("TreeNode")))), ("next", T("TreeNode"))],
+                               [("next", T("TreeNode")), ("children", L(NN(T("TreeNode")))), ("label", NN(T("String")))],
+                               [("kids", L(T("TreeNode"))), ("children", NN(L(NN(T("TreeNode"))))), ("a", T("TreeNode")), ("b", T("TreeNode"))])):
+        s = Schema()
+        s.add("TreeNode", {"kind": "input", "one_of": False, "fields": [[n_, t_] for n_, t_ in decl]})
+        s.add("Outline", {"kind": "input", "one_of": False, "fields": [["sections", L(NN(T("Section")))], ["main", T("Section")]]})
+        s.add("Section", {"kind": "input", "one_of": False, "fields": [["related", L(T("Outline"))], ["parent", T("Outline")]]})
+        s.add("Query", obj("Query", [("x", T("Int"))]))
+        doc = {"operations": [{"kind": "query", "name": "Q", "vars": [{"name": "tree", "type": T("TreeNode"), "default": None}, {"name": "o", "type": T("Outline"), "default": None}],
+                               "sel": [["field", None, "x", None, None]]}], "fragments": []}
+        c = C.make_case("m%d" % mi, s, doc, rng, options={"skip_none": True}, fmt=["sdl", "json", "sdl"][mi])
+        plain = [n_ for n_, t_ in decl if t_ == T("TreeNode")][0]
+        lst = [n_ for n_, t_ in decl if t_[0] in ("list", "nn") and n_ != "label"][0]
+        leaf = {"label": "l"} if any(n_ == "label" for n_, _ in decl) else {}
+        if any(n_ == "children" and t_[0] == "nn" for n_, t_ in decl):
+            leaf = dict(leaf, children=[])
+        val = {"tree": dict(leaf, **{plain: dict(leaf, **{plain: dict(leaf)}), lst: [dict(leaf), dict(leaf, **{plain: dict(leaf)})]}),
+               "o": {"main": {"parent": {"sections": [{"related": [None]}]}}}}
+        c["vectors"] = [{"id": "a0", "kind": "vars", "target": "Q", "input": val, "expect": {"variables": val}}]
+        c["pattern"] = "list and plain members of one recursive input type in one struct (declaration order %d)" % mi
+        c["features"] = ["several-members-of-one-recursive-type"]
         out.append(c)
     for li, n in enumerate((12, 40, 48)):      # (beyond ~80 distinct nested types rustc's own recursion limit answers, E0320: not this property's business)
         s = Schema()
